@@ -459,7 +459,8 @@ def vmap_infer_axis_size(ctx):
     for tag, tr, spec, want in (("int_0", tree, 0, a), ("callable_if_array_0", tree, if_array0, a), ("int_1", tree, 1, k), ("two_leaves_callable", tree2, if_array0, a)):
         paths = it.explore(lambda tr=tr, spec=spec: fn(tr, spec))
         okp = [p for p in paths if p.outcome == "return"]
-        ctx.oblige(f"C08/_infer_axis_size_from_params[{tag}]/struct/returns", len(okp) >= 1, [], props, kind="applicability", fn=f"{q}._infer_axis_size_from_params")
+        ctx.oblige(f"C08/_infer_axis_size_from_params[{tag}]/post/returns_for_a_spec_that_maps_a_leaf", len(okp) >= 1, [], props, kind="struct", fn=f"{q}._infer_axis_size_from_params", replay=rp,
+                   note=f"outcomes: {[(p.outcome, getattr(p.value, 'exc', None)) for p in paths][:4]}")
         for n_, p in enumerate(okp):
             ctx.oblige(f"C08/_infer_axis_size_from_params[{tag}]/post/size_of_the_mapped_axis#{n_}", lift(p.value) == want, p.cond, props, fn=f"{q}._infer_axis_size_from_params", replay=rp)
     paths = it.explore(lambda: fn(tree, None))
